@@ -10,17 +10,14 @@ open BHS.Props.C12
 #print axioms C12_deleted_not_called
 #print axioms C12_posts_partial
 #print axioms C12_posts_hypothesis
-#print axioms C12_posts_today
-#print axioms C12_posts_counterexample
+#print axioms C12_posts
 #print axioms C12_counter_run
 #print axioms C12_counter_threshold
 #print axioms C12_counter_step
 #print axioms C12_success_is_200
 #print axioms C12_counter_partial
-#print axioms C12_counter_today
-#print axioms C12_counter_counterexample
+#print axioms C12_counter
 #print axioms C12_get_state
 #print axioms C12_get_reports_partial
+#print axioms C12_get_reports
 #print axioms C12_restart
-#print axioms C12_get_today
-#print axioms C12_get_reports_counterexample
